@@ -391,6 +391,84 @@ func TestSequential(t *testing.T) {
 	}
 }
 
+// panicOnce panics in its n-th Write and works normally before and after.
+type panicOnce struct {
+	plainRecorder
+	n, at int
+}
+
+func (p *panicOnce) Write(b []byte) (int, error) {
+	p.n++
+	if p.n == p.at {
+		panic("injected writer panic")
+	}
+	return p.plainRecorder.Write(b)
+}
+
+// TestWriterFault injects one panic into the shared writer (the caller recovers it, as a logging wrapper
+// would): the records handled afterwards, through any handler of the derivation tree, must still come out.
+func TestWriterFault(t *testing.T) {
+	r := mon.Start("C19", "writer_fault")
+	var n int64
+	for opt := 0; opt < nOpts; opt++ {
+		for at := 1; at <= 3; at++ {
+			o := options(optKind(opt))
+			w := &panicOnce{at: at}
+			root := node{slogutil.NewJSONHybridHandler(w, o), nil}
+			nodes := []node{root, derive(root, attrsN(2, opt)), derive(derive(root, attrsN(1, at)), attrsN(2, at+1))}
+			for i := 0; i < 6; i++ {
+				nd := nodes[i%len(nodes)]
+				rc := mkRecord(slog.LevelError, fmt.Sprintf("fault-%d", i), i%3, i+opt, false)
+				want, ok := refLine(o, rc, nd.acc)
+				before := len(w.writes)
+				done := make(chan string, 1)
+				go func() {
+					var herr error
+					p, pv := mon.Catch(func() { herr = nd.h.Handle(context.Background(), rc) })
+					switch {
+					case p && w.n == w.at && fmt.Sprint(pv) == "injected writer panic":
+						done <- "injected"
+					case p:
+						done <- fmt.Sprintf("Handle panicked: %v", pv)
+					case herr != nil:
+						done <- fmt.Sprintf("Handle returned %v", herr)
+					default:
+						done <- ""
+					}
+				}()
+				var res string
+				select {
+				case res = <-done:
+				case <-time.After(30 * time.Second):
+					res = "Handle did not return within 30 s: the handler is stuck after the writer's panic"
+				}
+				n++
+				if res == "injected" {
+					continue // this is the record whose Write panicked
+				}
+				if res == "" && ok {
+					if got := len(w.writes) - before; got != 1 {
+						res = fmt.Sprintf("%d writes for one record", got)
+					} else {
+						res = judgeWrite(w.writes[before], rc.Level, want)
+					}
+				}
+				if res != "" {
+					r.Violation(fmt.Sprintf("writer-fault:%d:%d:%d", opt, at, i), fmt.Sprintf("options #%d, writer panics in its Write #%d, record #%d handled afterwards: %s", opt, at, i+1, res), map[string]any{"options": opt, "panic_at": at, "record": i})
+					break
+				}
+			}
+		}
+	}
+	r.Eval(n)
+	r.NontrivialN(n)
+	r.Count("records_around_an_injected_writer_panic", n)
+	r.Sample(map[string]any{"fault": "the shared io.Writer panics in its 1st/2nd/3rd Write; the caller recovers", "checked": "every later record through root/child/grandchild handlers produces its one correct line"})
+	if r.Finish() > 0 {
+		t.Fail()
+	}
+}
+
 // TestConcurrent logs through a derivation tree from many goroutines onto one
 // shared writer.
 func TestConcurrent(t *testing.T) {
